@@ -28,12 +28,12 @@ ASSUMPTIONS = ["float values: the normaliser counts as zero only if every summat
 TYPES = {'int': int, 'float': float, 'q': Q, 'f64': np.float64, 'f32': np.float32, 'i64': np.int64}
 
 
-def _conv(t, v):
+def _conv(t, v, scale=1):
     if t in ('int', 'i64'):
         return TYPES[t](int(v))
     if t == 'q':
-        return Q(v)
-    return TYPES[t](float(Q(v)))
+        return Q(v) * Q(scale)
+    return TYPES[t](float(Q(v)) * float(scale))
 
 
 def check_normalised(raw, out, mode, eps=2.0 ** -52):
@@ -111,7 +111,7 @@ def check_normalised(raw, out, mode, eps=2.0 ** -52):
             return f'range-one:{mode}', f'normalised range is {rng_!r}: {out!r} for {raw!r}'
         # orientation: the largest raw value stays the largest
         kmax = max(ks, key=lambda k: rf[k])
-        if of[kmax] != max(of.values()):
+        if of[kmax] < max(of.values()) - 64 * eps * max(1.0, sabs):   # ties may differ by mixed-precision rounding
             return f'ratio:{mode}', f'order reversed: {out!r} for {raw!r}'
     return None
 
@@ -137,7 +137,7 @@ def _injector():
 
 
 def run_dict(case):
-    vals = {k: _conv(t, v) for k, (t, v) in zip(case['keys'], case['values'])}
+    vals = {k: _conv(t, v, case.get('scale', 1)) for k, (t, v) in zip(case['keys'], case['values'])}
     Inj = _injector()
     ex = Inj(vals)
     snapshot = dict(vals)
@@ -166,6 +166,8 @@ def run_dict(case):
     if zero_sum:
         labels.append('zero_sum')
     labels += sorted({t for t, _ in case['values']})
+    if case.get('scale', 1) != 1:
+        labels.append(f"scale={case['scale']:g}")
     return Result(True, nontrivial=nt, labels=labels)
 
 
@@ -260,7 +262,8 @@ def dict_cases(draw):
             v = draw(st.integers(-6, 6)) if t in ('int', 'i64') else draw(
                 st.one_of(st.integers(-6, 6), st.sampled_from(['1/2', '-1/2', '3/4', '-5/4', '1/8'])))
             vals.append([t, v])
-    return {'keys': keys, 'values': vals}
+    # tiny and huge magnitudes: a normaliser of 1e-14 is small, not zero
+    return {'keys': keys, 'values': vals, 'scale': draw(st.sampled_from([1, 1, 1e-14, 1e-9, 1e-30, 1e12]))}
 
 
 @st.composite
